@@ -412,3 +412,96 @@ func TestC19Queue(t *testing.T) {
 		settle(rt, rec, viol, map[string]interface{}{"config": desc, "trace": tail(w.C.Trace, 200)}, len(w.C.Trace), "config: "+desc+"\n--- trace (tail) ---\n"+strings.Join(tail(w.C.Trace, 80), "\n"))
 	})
 }
+
+// TestC19ValidateSuperseded: `canary validate` while the canary it would validate has just been superseded. Canary B
+// runs, the user pushes template C, the ExtendedDaemonSet controller has created C's replica set (one reconcile) but
+// status.canary still names B. The command validates what the status names - B, the replica set that was the canary
+// when it ran - and a replica set that never ran as a canary is not promoted by it.
+func TestC19ValidateSuperseded(t *testing.T) {
+	rec := evid.New("TestC19ValidateSuperseded", "C19", "2-4 nodes, manual or auto (30m) canary; templates A (rolled out), B (canary running), then C pushed and 0, 1 or 2 reconciles of the ExtendedDaemonSet before the real `canary validate` body runs, then six fair rounds; oracle: the command writes canary-valid = the replica set status.canary named when it ran, nothing else; the promotion-rule monitor after every reconcile; a replica set that was never recorded as the canary is not active at the end unless the annotation names it; non-trivial = status.canary named a superseded set when the command ran; distinct by configuration")
+	failed := false
+	ff := &firstFail{t: t, failed: &failed}
+	for _, nodes := range []int{2, 3, 4} {
+		for _, auto := range []bool{false, true} {
+			for recs := 0; recs <= 2; recs++ {
+				desc := fmt.Sprintf("nodes=%d auto=%v edsReconcilesBetweenTheEditAndTheCommand=%d", nodes, auto, recs)
+				var viol []mon.V
+				w := &World{rec: rec, cfg: WorldCfg{Monitors: mon.Of("promotion-rule", "status-function", "no-panic"), Property: "C19"}, H: mon.NewHistory(), RSSeen: map[string]bool{}, RolesSynced: map[string]bool{}, Facts: map[string]int{}, lastSyncAt: map[string]time.Time{}, Det: true}
+				w.OnViolation = func(vs []mon.V) { viol = append(viol, vs...) }
+				w.C = sim.New(sim.Options{})
+				for i := 0; i < nodes; i++ {
+					w.C.AddNode(fmt.Sprintf("n%d", i+1), map[string]string{"zone": "a", "tier": "a"}, nil)
+				}
+				cn := &edsv1.ExtendedDaemonSetSpecStrategyCanary{Replicas: gen.ParseIntOrPercent("1"), ValidationMode: edsv1.ExtendedDaemonSetSpecStrategyCanaryValidationModeManual}
+				if auto {
+					cn.ValidationMode = edsv1.ExtendedDaemonSetSpecStrategyCanaryValidationModeAuto
+					cn.Duration = &metav1.Duration{Duration: 30 * time.Minute}
+				}
+				st := edsv1.ExtendedDaemonSetSpecStrategy{Canary: cn}
+				st.RollingUpdate.MaxUnavailable = gen.ParseIntOrPercent("100%")
+				w.C.Add(&edsv1.ExtendedDaemonSet{ObjectMeta: metav1.ObjectMeta{Namespace: "ns1", Name: "foo"}, Spec: edsv1.ExtendedDaemonSetSpec{Template: gen.LetterTemplate('A'), Strategy: st}})
+				k := sim.KeyOf("ns1", "foo")
+				w.EDS = append(w.EDS, k)
+				stop := func() bool { return len(viol) > 0 }
+				for i := 0; i < 15 && !stop(); i++ {
+					if e := w.C.EDS(k.Namespace, k.Name); e != nil && int(e.Status.Ready) == nodes {
+						break
+					}
+					w.fairRound("c19 deploy")
+				}
+				w.editTemplate(k, 'B')
+				for i := 0; i < 6 && !stop(); i++ {
+					w.fairRound("c19 canary B")
+				}
+				before := w.C.EDS(k.Namespace, k.Name)
+				if before.Status.Canary == nil {
+					f := fataler(ff)
+					f.Fatalf("harness: canary B did not start (%s)", desc)
+					return
+				}
+				canaryB, activeA := before.Status.Canary.ReplicaSet, before.Status.ActiveReplicaSet
+				w.editTemplate(k, 'C')
+				for i := 0; i < recs && !stop(); i++ {
+					w.C.Advance(time.Second)
+					w.reconcile(sim.ActorEDS, k.Namespace, k.Name)
+				}
+				named := ""
+				if e := w.C.EDS(k.Namespace, k.Name); e.Status.Canary != nil {
+					named = e.Status.Canary.ReplicaSet
+				}
+				snap := w.C.Snapshot()
+				out, err := c19Run(w.C, "canary-validate", k.Namespace, k.Name)
+				w.C.Tracef("command canary-validate (status.canary names %s) -> err=%v %s", named, err, strings.TrimSpace(out))
+				if err == nil {
+					if d := c19Diff(snap, w.C.Snapshot(), "canary-validate", k.Namespace, k.Name, named); len(d) > 0 {
+						viol = append(viol, mon.V{Property: "C19", Monitor: "commands", Sig: "C19/commands/canary-validate/touches-more-than-documented", Detail: strings.Join(d, "; ") + " (" + desc + ")"})
+					}
+					if got := w.C.EDS(k.Namespace, k.Name).Annotations[oracle.AnnCanaryValid]; got != named && !stop() {
+						viol = append(viol, mon.V{Property: "C19", Monitor: "commands", Sig: "C19/commands/canary-validate/annotation-value", Detail: fmt.Sprintf("canary validate ran while status.canary named %q and wrote canary-valid=%q (%s)", named, got, desc)})
+					}
+				}
+				for i := 0; i < 6 && !stop(); i++ {
+					w.fairRound("c19 after validate")
+				}
+				if !stop() {
+					e := w.C.EDS(k.Namespace, k.Name)
+					act := e.Status.ActiveReplicaSet
+					if act != activeA && act != canaryB && e.Annotations[oracle.AnnCanaryValid] != act {
+						viol = append(viol, mon.V{Property: "C19", Monitor: "commands", Sig: "C19/interpretation/unvalidated-set-active", Detail: fmt.Sprintf("replica set %s is active although it never was the validated canary (canary B was %s, annotation names %q) (%s)", act, canaryB, e.Annotations[oracle.AnnCanaryValid], desc)})
+					}
+				}
+				nt := named == canaryB && recs > 0
+				rec.Case(nt, evid.FP(desc), fmt.Sprintf("status-named-superseded-set=%v", named == canaryB))
+				rec.Steps(1)
+				if nt && rec.WantSample() {
+					rec.Sample(desc)
+				}
+				settle(ff, rec, viol, map[string]interface{}{"config": desc, "trace": w.C.Trace}, len(w.C.Trace), "config: "+desc+"\n--- trace ---\n"+strings.Join(w.C.Trace, "\n"))
+			}
+		}
+	}
+	rec.Exhaustive(true)
+	if !failed {
+		rec.Done()
+	}
+}
